@@ -276,6 +276,56 @@ func main() {
 			r.Cap(fmt.Sprintf("budget %d stopped early", budget))
 		}
 	}
+	// Deep, narrow lines: the tree above covers every outcome sequence for small budgets; a bound on
+	// attempts that only gives way at a larger scale (a capped history, a counter of limited width)
+	// needs budgets beyond any tree. For budgets 31..64 two scripted executions each: the commit
+	// fails retriably until the budget is spent and beyond (the run must stop after budget+1
+	// attempts), and the commit fails retriably exactly budget times (the last allowed attempt wins).
+	deepBudgets := []int{31, 32, 33, 64}
+	type script struct {
+		name      string
+		failFirst func(b int) int // number of attempts whose commit fails retriably before commits succeed
+	}
+	scripts := []script{{"retriable-beyond-the-budget", func(b int) int { return b + 5 }}, {"retriable-exactly-budget-times", func(b int) int { return b }}}
+	for _, budget := range deepBudgets {
+		for _, sc := range scripts {
+			budget, sc := budget, sc
+			mkChooser := func() *mc.Chooser {
+				attempt := 0
+				c := mc.NewChooser(nil)
+				c.Policy = func(n int, label string, _ int) int {
+					switch label {
+					case "concurrent-writer-before-attempt":
+						attempt++
+					case "TryCommit":
+						if attempt <= sc.failFirst(budget) {
+							return 1 // retriable
+						}
+					}
+					return 0
+				}
+				return c
+			}
+			run := func(c *mc.Chooser) string {
+				v, err, pan := runOne(f, budget, c)
+				r.Eval()
+				r.Transition(len(c.Points))
+				obs := check(r, f, budget, c, v, err, pan)
+				r.Validated()
+				r.Outcome("deep-line:" + sc.name)
+				return obs
+			}
+			if r.Replaying() {
+				pfx := fmt.Sprintf("budget=%d choices=", budget)
+				if strings.HasPrefix(r.ReplayID, pfx) {
+					r.Case(r.ReplayID, func() string { return run(mc.NewChooser(mc.ParseChoices(strings.TrimPrefix(r.ReplayID, pfx)))) })
+				}
+				continue
+			}
+			run(mkChooser())
+		}
+	}
+	r.Set("deep_line_budgets", deepBudgets)
 	r.Set("budgets", budgets)
 	r.Set("max_choice_points_per_execution", depth)
 	r.Finish()
